@@ -265,6 +265,13 @@ func TestC07(t *testing.T) {
 			{"undefinedvar++\n", "reject", "increment-undefined"},
 			{"undefinedvar += 1\n", "reject", "compound-undefined"},
 			{"iv, cv := 2, false\n", "reject", "no-new-variables"},
+			{"na, na := 1, 2\nprint(na)\n", "reject", "same-name-twice-in-short-definition"},
+			{"var na, na int\nprint(na)\n", "reject", "same-name-twice-in-var"},
+			{"var na, nb, na = 1, 2, 3\nprint(na, nb)\n", "reject", "same-name-twice-in-var-with-values"},
+			{"func two() (int, int) {\nreturn 1, 2\n}\nna, na := two()\nprint(na)\n", "reject", "same-name-twice-from-call"},
+			{"for ri, ri := range lv {\nprint(ri)\n}\n", "reject", "same-name-twice-in-range-header"},
+			{"func f() {\nna, na := 1, 2\nprint(na)\n}\nf()\n", "reject", "same-name-twice-in-function"},
+			{"na, nb := 1, 2\nnb, nc := 3, 4\nprint(na, nb, nc)\n", "accept", "reuse-next-to-a-new-name"},
 			{"func f(q int) {\nq := 2\n}\nf(1)\n", "reject", "parameter-redefined"},
 			{"func f(q int) {\nprint(q)\n}\nf(1)\nprint(q)\n", "reject", "parameter-used-outside"},
 			{"func f() {\nlv := 1\nprint(lv)\n}\nfunc g() {\nprint(lv)\n}\nf()\ng()\n", "reject", "local-of-other-function"},
